@@ -13,3 +13,15 @@ func VerifPrune(a *ApplicationServer, latestVersion uint64) error {
 func VerifLastRetained(a *ApplicationServer) uint64 {
 	return a.mux.state.statePruner.GetLastRetainedVersion()
 }
+
+// VerifReleaseState closes the pruner notification channel of a stopped
+// application server: its buffering goroutine otherwise lives for the rest of
+// the process (harmless for a node, not for a harness that creates hundreds of
+// thousands of replicas).  Only to be called after Stop and Cleanup.
+func VerifReleaseState(a *ApplicationServer) {
+	defer func() { _ = recover() }()
+	ch := a.mux.state.prunerNotifyCh
+	ch.Close()
+	for range ch.Out() { // drain what the stopped prune worker did not read, so that the buffering goroutine ends
+	}
+}
